@@ -436,6 +436,22 @@ def enter_exit_rules(R, P):
     from ..roles import Roles as _Roles
     common.unwind_pauses(R, _Roles(R), P + ".UNWIND-PAUSE")
     common.typed_stack_elements(R, _Roles(R), P + ".UNWIND-TYPED")
+    # the pause loop walks a copy of the task's context table: a pause() hook may leave a context of the same task (a context that
+    # delegates to others and exits them when it is paused), which removes an entry - over the live table the next iteration step
+    # raises "OrderedDict mutated during iteration" out of the scheduler and the remaining (outer) contexts are never paused
+    pm_ = _Roles(R).AsyncTask.methods.get("_pause_contexts")
+    if pm_ is not None:
+        for lp_ in [n for n in ast.walk(pm_.node) if isinstance(n, ast.For) and any(q.attr_call(c)[1] == "pause" for c in q.calls(n))]:
+            exprs_ = [lp_.iter]
+            for x in ast.walk(lp_.iter):
+                if isinstance(x, ast.Name):
+                    exprs_ += [v for k_, v in common.assigned_values(pm_.node, x.id) if k_ == "expr"]
+            copied = any(isinstance(x, ast.Call) and q.call_name(x) in ("list", "tuple", "sorted") for e_ in exprs_ for x in ast.walk(e_)) or \
+                any(isinstance(x, (ast.ListComp,)) for e_ in exprs_ for x in ast.walk(e_))
+            R.check(copied, P + ".HOOK-ALL", pm_.qualname + ":snapshot", R.site(pm_, lp_),
+                    "the pause loop iterates a copy of the context table",
+                    "the pause loop iterates the live context table (`%s`): a pause() hook that leaves a context of this task changes the table under the "
+                    "iterator - RuntimeError (mutated during iteration) escapes from the scheduler and the contexts not reached yet stay active" % q.src(lp_.iter)[:60])
     from .c12 import running_on_every_step
     running_on_every_step(R, _Roles(R), P + ".UNWIND-PAUSE")
     # __exit__ unregisters before it pauses: if pause() raises, the context is nevertheless no longer known to the task
